@@ -269,12 +269,17 @@ func c15Lab(t *testing.T, variant stdVariant, engine string) {
 	ua := s.uas[0]
 	send := func(b []byte) error { return ua.sendUDP(l.Addr, l.UDPPort, b) }
 	lastRR := ""
+	deco := 0
 	request := func(method, callID, fromTag, toTag, extra string) ([]labRx, error) {
-		to := "<sip:b@nomatch.example>"
+		// the parties' URIs are written now with, now without SIP-URI parameters and
+		// display names: they do not take part in the identity of a dialog
+		deco++
+		to := []string{"<sip:b@nomatch.example>", "<sip:b@nomatch.example;user=phone>", "\"B\" <sip:b@nomatch.example;transport=udp;x>"}[deco%3]
 		if toTag != "" {
 			to += ";tag=" + toTag
 		}
-		wire := []byte(fmt.Sprintf("%s sip:svc.test SIP/2.0\r\nVia: SIP/2.0/UDP %s:5060;branch=z9hG4bK%s;rport\r\nFrom: <sip:a@a.example>;tag=%s\r\nTo: %s\r\nCall-ID: %s\r\nCSeq: 1 %s\r\n%sContent-Length: 0\r\n\r\n", method, ua.ip, s.nextID("c15b"), fromTag, to, callID, method, extra))
+		from := []string{"<sip:a@a.example>", "A <sip:a@a.example;user=phone>"}[(deco/3)%2]
+		wire := []byte(fmt.Sprintf("%s sip:svc.test SIP/2.0\r\nVia: SIP/2.0/UDP %s:5060;branch=z9hG4bK%s;rport\r\nFrom: %s;tag=%s\r\nTo: %s\r\nCall-ID: %s\r\nCSeq: 1 %s\r\n%sContent-Length: 0\r\n\r\n", method, ua.ip, s.nextID("c15b"), from, fromTag, to, callID, method, extra))
 		s.model.learnRequest(s.model.transport(0, "udp"), ua.ip, &AMsg{IsReq: true, Hdrs: []AHdr{{Kind: hVia, Vias: []AVia{{Host: ua.ip}}}}})
 		s.in.expect(wire)
 		if err := send(wire); err != nil {
